@@ -89,8 +89,11 @@ def run(ctx: Ctx):
     p1 = ctx.func("simplex", "_phase1")
     ctx.step(_need, "C03-O7", "R16 PAIRED-EFFECTS", p1, "after phase 1 every basic artificial is pivoted out over all structural and slack columns (every column that is not artificial), with its basis label", ["n_cols = len(matrix[0])\n    for i in range(m):\n        if basis[i] in art_cols:\n            for j in range(n_cols - 1 - len(art_cols)):\n                if j not in basis_set and abs(matrix[i][j]) > eps:\n                    matrix = _pivot(matrix, m, i, j, eps)\n                    basis_set.discard(basis[i])\n                    basis[i] = j\n                    basis_set.add(j)\n                    break"], "a scan that stops short of the last non-artificial column leaves an artificial basic; it is deleted with its column and phase 2 lets it grow")
     ctx.step(_need, "C03-O7", "R16 PAIRED-EFFECTS", p1, "the artificial objective is the sum of the artificial rows; afterwards the artificial columns are removed and the original objective is restored and priced out against the basis", ["for col in art_cols:\n        matrix[-1][col] = 1.0", "for i in range(m):\n        if basis[i] in art_cols:\n            for j in range(n_cols):\n                matrix[-1][j] -= matrix[i][j]", "for _ in art_cols:\n        for row in matrix:\n            del row[-2]", "matrix[-1] = orig_obj", "var = basis[i]\n        if var < n_cols - 1:\n            cost = matrix[-1][var]\n            if abs(cost) > eps:\n                for j in range(n_cols):\n                    matrix[-1][j] -= cost * matrix[i][j]"])
+    ctx.step(_need, "C03-O7", "R16 PAIRED-EFFECTS", p1, "a row with a negative right-hand side is negated as a whole, every row grows by one artificial column before the right-hand side, the column has a unit entry in that row and becomes the row's basic variable (label and set together); the phase-1 objective row starts from zero", ["if matrix[i][-1] < -eps:\n            row_len = len(matrix[i])\n            for j in range(row_len):\n                matrix[i][j] *= -1\n            art_col = n_total + len(art_cols)\n            for row in matrix:\n                row.insert(-1, 0.0)\n            matrix[i][-2] = 1.0\n            basis_set.discard(basis[i])\n            basis[i] = art_col\n            basis_set.add(art_col)\n            art_cols.append(art_col)", "n_cols = len(matrix[0])\n    matrix[-1] = array('d', [0.0] * n_cols)", "orig_obj = array('d', matrix[-1])", "matrix[-1] = orig_obj\n    n_cols = len(matrix[0])"], "a missing unit entry or basis label leaves phase 1 without a starting basis: its verdict is about another system")
     ex = ctx.func("simplex", "_extract")
     ctx.step(_need, "C03-O7", "R5 PAIRING", ex, "the point is read off the basic rows of the structural variables; the objective is the negated corner cell, mirrored back for maximisation", ["solution = [0.0] * n", "for i in range(m):\n        if basis[i] < n:\n            solution[basis[i]] = matrix[i][-1]", "obj = -matrix[-1][-1]\n    if not minimize:\n        obj = -obj", "return Result(tuple(solution), obj, iters, iters, status)"])
+    ipf = ctx.func("interior_point", "solve_lp_interior")
+    ctx.step(_need, "C03-O3", "R16 PAIRED-EFFECTS", ipf, "the residuals that license OPTIMAL / FEASIBLE are those of the system [A | I](x, s) = b with the extended cost vector: every row gets its own unit slack entry and is appended", ["for i in range(m):\n        row = list(A[i]) + [0.0] * m\n        row[n + i] = 1.0\n        A_aug.append(row)", "c_ext = obj + [0.0] * m\n    n_total = n + m", "rb = [sum((A_aug[i][j] * x[j] for j in range(n_total))) - b[i] for i in range(m)]", "rc = [sum((A_aug[i][j] * y[i] for i in range(m))) + z[j] - c_ext[j] for j in range(n_total)]"], "a slack entry that is missing turns `<=` rows into equalities (or drops the row): the convergence tests then certify a point of another LP")
     sl = ctx.func("interior_point", "_step_length")
     tsl = ast.unparse(sl.node)
     ctx.ob("C03-O3", "R18 table", sl, "step length = min(1, min over decreasing components of -v/dv), never negative (iterates stay non-negative)", "alpha = 1.0" in tsl and "if dv[j] < -1e-12:\n            alpha = min(alpha, -v[j] / dv[j])" in tsl and "return max(0.0, alpha)" in tsl and "for j in range(n):" in tsl, "", node=sl.node)
@@ -162,6 +165,8 @@ def check_simplex_verdicts(ctx: Ctx):
             ctx.ob("C03-O2", "R1 STATUS-GUARD", f, f"Result#{k} literal INFEASIBLE only when phase 1 said INFEASIBLE", possible <= {"INFEASIBLE"}, f"under guards {sorted(a for a in at if var in a)} phase 1 may have returned {sorted(possible)}", node=s.call)
         elif st is not None and isinstance(st, ast.Name):
             ctx.ob("C03-O2", "R1 STATUS-GUARD", f, f"Result#{k} forwards the phase-1 status", st.id == _phase1_status_var(f), "", node=s.call)
+            fw = _possible(gv.guard_atoms(s.node, stable_only=False), st.id, s1)
+            ctx.ob("C03-O2", "R1 STATUS-GUARD", f, f"Result#{k} forwards every phase-1 outcome except OPTIMAL, and only those (phase 2 runs exactly after a successful phase 1)", fw == set(s1) - {"OPTIMAL"}, f"forwarded under its guards: {sorted(fw)}; phase 1 returns {sorted(s1)}", node=s.call)
     # phase 1: INFEASIBLE return under artificial objective test and after the inner status was examined
     c1 = cfg_of(p1.node)
     g1 = GuardView(c1)
@@ -183,6 +188,25 @@ def check_simplex_verdicts(ctx: Ctx):
             ctx.ob("C03-O2", "R2 BUDGET-EXIT", p1, "phase-1 INFEASIBLE not reachable from an iteration-limited inner run", examined, f"guards {sorted(at)} do not mention the inner status `{svar}`", node=n)
             ctx.step(_infeasible_threshold_scaled, p1, c1, inner, n)
     ctx.floor("phase-1 INFEASIBLE returns", n_inf, 1)
+    inf_false = set()
+    for n in own_nodes(p1.node):
+        if isinstance(n, ast.Return) and isinstance(n.value, ast.Tuple) and is_status(n.value.elts[0]) == "INFEASIBLE":
+            for gd in c1.guards(c1.node_of(n)):
+                t = gd.test.ast if gd.test is not None else None
+                if t is not None and any(_corner(x) for x in ast.walk(t)):
+                    inf_false |= _atoms(t, not gd.pol)
+    for n in own_nodes(p1.node):
+        if isinstance(n, ast.Return) and isinstance(n.value, ast.Tuple) and is_status(n.value.elts[0]) in ("MAX_ITER", "OPTIMAL"):
+            lit = is_status(n.value.elts[0])
+            rn = c1.node_of(n)
+            at = g1.guard_atoms(rn, stable_only=False)
+            after_inner = c1.dominates(c1.node_of(inner), rn)
+            if lit == "MAX_ITER":
+                ctx.ob("C03-O2", "R2 BUDGET-EXIT", p1, "phase-1 MAX_ITER only when the inner run said MAX_ITER", after_inner and _possible(at, svar, s2) == {"MAX_ITER"}, f"guards {sorted(a for a in at if svar in a)}", node=n)
+            elif not after_inner:
+                ctx.ob("C03-O2", "R1 STATUS-GUARD", p1, "phase 1 answers OPTIMAL without pivoting only when no artificial column was needed", "F:art_cols" in at, f"guards {sorted(at)}", node=n)
+            else:
+                ctx.ob("C03-O2", "R1 STATUS-GUARD", p1, "phase-1 OPTIMAL after the inner run only when that run neither hit its budget nor left the artificial objective positive", "MAX_ITER" not in _possible(at, svar, s2) and bool(inf_false) and inf_false <= at, f"guards {sorted(at)}; negation of the INFEASIBLE test: {sorted(inf_false)}", node=n)
     # _phase2: MAX_ITER only after the loop; OPTIMAL under 'no entering column'; UNBOUNDED under 'no leaving row'
     c2 = cfg_of(p2.node)
     g2 = GuardView(c2)
@@ -233,6 +257,22 @@ def check_pivot_thresholds(ctx: Ctx):
     ctx.ob("C03-O5", "R18 SIBLING-AGREEMENT (expression)", p2, "entering column: smallest non-basic index with reduced cost below -eps (Bland)", ok2 and "for j in range(n_cols - 1)" in ast.unparse(p2.node), "", node=p2.node)
     t = ast.unparse(p2.node)
     ctx.ob("C03-O5", "R16 PAIRED-EFFECTS", p2, "after the pivot the basis bookkeeping is updated for exactly the pivoted row and column", "matrix = _pivot(matrix, m, leave, enter, eps)" in t and "basis_set.discard(basis[leave])" in t and "basis[leave] = enter" in t and "basis_set.add(enter)" in t, "", node=p2.node)
+
+
+def _possible(at, var, universe):
+    """Statuses `var` can still hold under the guard atoms `at` (==, !=, in, not in over Status members)."""
+    import re
+
+    possible = set(universe)
+    for a in at:
+        names = set(re.findall(r"Status\.([A-Z_]+)", a))
+        if not names or not re.search(rf"(?<![\w.]){re.escape(var)}(?![\w.])", a):
+            continue
+        if " not in " in a or " != " in a:
+            possible -= names
+        elif " in " in a or " == " in a:
+            possible &= names
+    return possible
 
 
 def _phase1_status_var(f) -> str:
@@ -573,6 +613,41 @@ def _t_phase1_relative_by_division(tree):
     M.replace_expr(g, lambda e: isinstance(e, ast.Compare) and M.src_is(e, "matrix[-1][-1] < -eps * max(1.0, infeasibility)"), M.expr("matrix[-1][-1] / max(1.0, infeasibility) < -eps"))
 
 
+def _v_forward_when_optimal(tree):
+    f = M.find_func(tree, "solve_lp")
+    M.replace_expr(f, lambda e: isinstance(e, ast.Compare) and M.src_is(e, "status != Status.OPTIMAL"), M.expr("status == Status.OPTIMAL"))
+
+
+def _v_phase1_maxiter_test_negated(tree):
+    g = M.find_func(tree, "_phase1")
+    M.replace_expr(g, lambda e: isinstance(e, ast.Compare) and M.src_is(e, "status == Status.MAX_ITER"), M.expr("status != Status.MAX_ITER"))
+
+
+def _v_phase1_no_unit_entry(tree):
+    g = M.find_func(tree, "_phase1")
+    M.replace_stmt(g, lambda s: isinstance(s, ast.Assign) and M.src_is(s.targets[0], "matrix[i][-2]"), [])
+
+
+def _v_phase1_label_without_set(tree):
+    g = M.find_func(tree, "_phase1")
+    M.replace_stmt(g, lambda s: isinstance(s, ast.Expr) and M.src_is(s.value, "basis_set.add(art_col)"), [])
+
+
+def _v_ipm_no_slack_entry(tree):
+    g = M.find_func(tree, "solve_lp_interior")
+    M.replace_stmt(g, lambda s: isinstance(s, ast.Assign) and M.src_is(s.targets[0], "row[n + i]"), [])
+
+
+def _v_basis_set_unbound(tree):
+    f = M.find_func(tree, "solve_lp")
+    M.replace_stmt(f, lambda s: isinstance(s, ast.Assign) and M.src_is(s.targets[0], "basis_set"), [])
+
+
+def _t_forward_by_membership(tree):
+    f = M.find_func(tree, "solve_lp")
+    M.replace_expr(f, lambda e: isinstance(e, ast.Compare) and M.src_is(e, "status != Status.OPTIMAL"), M.expr("status in (Status.INFEASIBLE, Status.MAX_ITER)"))
+
+
 def _v_pivot_out_scan_short(tree):
     g = M.find_func(tree, "_phase1")
     M.replace_expr(g, lambda e: M.src_is(e, "range(n_cols - 1 - len(art_cols))"), M.expr("range(n_cols - 1 - m)"))
@@ -673,6 +748,13 @@ VARIANTS = [
     M.Variant("phase-1 infeasibility judged against the absolute eps (original defect)", SX, _v_phase1_absolute_threshold, "C03-O2"),
     M.Variant("phase-1 scale read from the corner cell after the inner run, when it is (nearly) zero", SX, _v_phase1_scale_read_after_run, "C03-O2"),
     M.Variant("twin: phase-1 residue divided by the scale instead of the tolerance multiplied", SX, _t_phase1_relative_by_division, None),
+    M.Variant("solve_lp forwards the phase-1 outcome when it is OPTIMAL and runs phase 2 after a failed phase 1", SX, _v_forward_when_optimal, "C03-O2"),
+    M.Variant("_phase1 answers MAX_ITER when the inner run did not", SX, _v_phase1_maxiter_test_negated, "C03-O2"),
+    M.Variant("artificial column without its unit entry", SX, _v_phase1_no_unit_entry, "C03-O7"),
+    M.Variant("artificial basis label not entered in the basis set", SX, _v_phase1_label_without_set, "C03-O7"),
+    M.Variant("interior point: slack entry of the augmented matrix missing", IP, _v_ipm_no_slack_entry, "C03-O3"),
+    M.Variant("basis_set read in the statement that first binds it", SX, _v_basis_set_unbound, "C03-G1"),
+    M.Variant("twin: phase-1 failure recognised by membership in (INFEASIBLE, MAX_ITER)", SX, _t_forward_by_membership, None),
     M.Variant("twin: reformat", SX, _t_reformat, None),
     M.Variant("twin: reformat interior", IP, _t_reformat, None),
     M.Variant("twin: rename status locals", SX, _t_rename, None),
